@@ -35,6 +35,12 @@ def check(chk, repo):
                    same, "semi-supervised training uses a different prototype search", line=prim.loop.line)
             if not same:
                 check_prim(rep, "semi:", prim)
+            G = ("attr", ("self",), "subgraph")
+            early = [e for e in w.events if e.kind == "call" and e.name in ("append", "extend", "insert")
+                     and e.target[1] == ("attr", G, "nodes") and e.seq < prim.loop.first_seq]
+            rep.fn("PRIM-labelled-only", w.entry, "the spanning tree is built over the labelled samples only",
+                   not early, "nodes are added to the training graph before the prototype search: unlabeled samples "
+                   "take part in the spanning tree", line=early[0].line if early else prim.loop.line)
         check_seeding(rep, "" if cls == "SupervisedOPF" else "semi:", ift, repo)
     chk.floor("competition loops reachable from the two fit methods", total, 4)
     from ..rules_heap import check_heap
